@@ -21,6 +21,9 @@ CFG_TOK = {"common_subexpression_elimination": {"true": True, "false": False},
            "innovation_filtering": {"none": None, "5.0": 5.0, "2.5": 2.5}}
 
 
+CORPUS_NONCONVERGING = [(2, 23, "2.5")]
+
+
 def universe(mods, u):
     """Concrete objects for universe u (1-based index into MC_Estimator!cUniverses)."""
     ui, python = mods["ui"], mods["python"]
@@ -217,6 +220,12 @@ def run(ctx):
     seqs = withfit[: (6 if quick else 120)] + nofit[: (30 if quick else 300)]
     for i, s_ in enumerate(seqs):
         s_["data_seed"] = ctx.seed * 1000 + i
+    # corpus: training sets found by search on which scipy's minimiser does NOT converge (the library's minimisation error path)
+    for (u, ds, filt) in CORPUS_NONCONVERGING:
+        init = {"symbolic_model": "M1", "sensor_models": "S1", "calibration_map": "C1", "process_noise": {"id": "pnA"}, "sensor_noises": {"id": "snA"},
+                "config": {"common_subexpression_elimination": "false", "extra_validation": "false", "max_dt_sec": "0.1", "innovation_filtering": filt, "python_modules": "default"}}
+        seqs.append({"universe": u, "init": init, "cmds": [{"cmd": "fit", "args": [], "outcome": "ok"}], "data_seed": ds})
+        withfit.append(seqs[-1])
     ctx.log("%d command sequences (%d with fit) -> real SklearnEKFAdapter" % (len(seqs), sum(1 for s in seqs if s in withfit)))
     res = workers.run_tasks([("props.c17", "run_cmds", (s,), 600) for s in seqs], procs=ctx.cores)
     traces, keep = [], []
